@@ -14,7 +14,6 @@ model used by T18.3/T18.4 are validated with exact rational arithmetic.
 """
 import datetime
 import dataclasses
-import os
 from fractions import Fraction
 
 import numpy as np
@@ -38,16 +37,25 @@ TWO_PI = 2 * np.pi
 RTOL = 1e-12   # probes: identities hold to a few ulps; every realistic defect is >= 1e-6
 RULE = ('scales: DEFAULT/ATMOSPHERIC and random scales (1-7 base dimensions, magnitudes 1e-3..1e8, each '
         'given in a random unit of its dimension); quantities: compound units of 0-4 of 35 multiplicative '
-        'pint units with exponents -3..3, magnitudes +-1e-12..1e12, python floats/ints, numpy and jax arrays (jax arrays only '
-        'where no integer conversion factor of pint reaches 2^63, which jax rejects with OverflowError); '
+        'pint units with INTEGER exponents -3..3 (the code also accepts fractional exponents such as m**0.5, which the model '
+        'does not have: one identity is probed, nothing is proved), magnitudes +-1e-12..1e12 and 0, python floats/ints, numpy and '
+        'jax arrays (jax arrays only where no integer conversion factor of pint reaches 2^63, which jax rejects with '
+        'OverflowError); quotients by a non-zero quantity, negative powers of non-zero quantities only (division by a zero '
+        'quantity and negative powers of zero are excluded points: the code raises ZeroDivisionError / returns inf, recorded); '
         'malformed stream: compound / squared / dimensionless / duplicate scales and quantities with an '
         'uncovered dimension; affine units: kelvin, degC, degF, degRe (and degR, offset 0) x DEFAULT/ATMOSPHERIC/'
         'Scale(3 mile, pi week, 2 lb, 32 K)/random scales with a temperature, temperatures from absolute zero to 1e4 '
         'incl. 0, -40, +-1e-9 and wide magnitudes to 1e8, python floats/ints, numpy and jax arrays (compound units '
         'built from an offset unit raise in pint and are outside the domain); durations: every whole second 0..1e5 (quick) / stratified to 1e9 (thorough) '
-        'under the default and random time scales, scalar and array path; datetimes: every minute of a '
-        'multi-year window plus random stamps over +-60 years in datetime64[m|s|ms|us|ns]; orbital phases: '
-        'times over +-1e6 model units incl. 0, tiny negative and whole years; a case is non-trivial when the '
+        'under the default and random time scales go through the REAL code (array path, and the scalar path on a subset); the '
+        'model sees about 440 sampled seconds per time scale (40 smallest + 400 random; 3000 in thorough), compared bit for bit; '
+        'numpy arrays and Python / numpy scalars only (a jax array of rank >= 1 raises TypeError in '
+        'dimensionalize_timedelta64: excluded, recorded); datetimes: every minute of a '
+        'multi-year window plus random stamps over +-60 years in datetime64[m|s|ms|us|ns], all a whole number of minutes from '
+        'the reference, plus (unit s) stamps at arbitrary seconds, which come back rounded to whole minutes from the reference; '
+        'orbital phases: times over +-1e6 model units incl. 0, tiny negative, whole days and whole years (eager float64), and '
+        'realistic times (k days / hours / 6-minute steps over 1..100 years under DEFAULT_SCALE; float64 and float32, eager and '
+        'jit) for the literal range [0, 2pi); a case is non-trivial when the '
         'unit is compound (>= 2 atoms or an exponent != 1) or the duration/time is non-zero')
 
 
@@ -77,6 +85,33 @@ def close(a, b, rtol=RTOL):
   if a.shape != b.shape or not (np.isfinite(a).all() and np.isfinite(b).all()):
     return False
   return bool((np.abs(a - b) <= rtol * np.maximum(np.abs(a), np.abs(b))).all())
+
+
+def corr_elementwise(ctx, op, inp, impl, model, rtol=1e-9):
+  """correspondence of float vectors with an ELEMENTWISE relative tolerance: every entry is compared with
+  rtol * max(|impl|, |model|) of that entry (the entries of one vector span 1e-12..1e12, so a tolerance relative to
+  the largest entry, as `Ctx.corr_float` uses, would leave the small ones unchecked); zeros must agree exactly,
+  non-finite entries must be identical."""
+  a = np.asarray(impl, dtype=float).ravel()
+  b = np.asarray(model, dtype=float).ravel()
+  ctx.traces += 1
+  if a.shape != b.shape:
+    ctx.corr_mismatch(op, inp, list(a.shape), list(b.shape), 'shape')
+    return False
+  fa, fb = np.isfinite(a), np.isfinite(b)
+  if not (fa == fb).all() or not (np.isnan(a) == np.isnan(b)).all() or not (a[~fa & ~np.isnan(a)] == b[~fa & ~np.isnan(a)]).all():
+    ctx.corr_mismatch(op, inp, a.tolist(), b.tolist(), 'finiteness')
+    return False
+  err = np.abs(a[fa] - b[fa])
+  tol = rtol * np.maximum(np.abs(a[fa]), np.abs(b[fa]))
+  bad = np.nonzero(err > tol)[0]
+  if bad.size:
+    i = int(bad[np.argmax(err[bad] / np.maximum(tol[bad], 1e-300))])
+    ctx.corr_mismatch(op, inp, a.tolist(), b.tolist(),
+                      f'elementwise: {bad.size} of {a.size} entries differ, worst entry impl={a[fa][i]!r} model={b[fa][i]!r} '
+                      f'rel={err[i] / max(abs(a[fa][i]), abs(b[fa][i])):.3e} > {rtol}')
+    return False
+  return True
 
 
 def circ_dist(a, b):
@@ -312,8 +347,15 @@ def run(ctx: common.Ctx):
                  'scale-product', 'nondim(q1*q2) != nondim(q1)*nondim(q2)', i3)
       ctx.expect(close(scale.nondimensionalize(q / qb_), np.asarray(nd_impl.reshape(np.shape(nd))) / ndb, 1e-11),
                  'scale-quotient', 'nondim(q1/q2) != nondim(q1)/nondim(q2)', i3)
+      # powers: nondim_pow carries `m != 0 or n >= 0` (a negative power of a zero quantity is an excluded point: the
+      # code raises / returns inf there, recorded below); zeros are probed with the positive powers
       n_pow = int(rng.choice([2, 3, -1, -2]))
-      if (flat != 0).all() and (np.abs(np.log10(np.abs(flat))).max() + budget(parts, sv)) * abs(n_pow) < 280:
+      if n_pow < 0 and (flat == 0).any():
+        ctx.dist['power: negative power of a zero magnitude (excluded point), positive power probed instead'] += 1
+        n_pow = -n_pow
+      nz = flat[flat != 0]
+      if (((np.abs(np.log10(np.abs(nz))).max() if nz.size else 0.0) + budget(parts, sv)) * abs(n_pow)) < 280:
+        ctx.dist[f'power: n={n_pow}{" (zero magnitude)" if (flat == 0).any() else ""}'] += 1
         ctx.expect(close(scale.nondimensionalize(q ** n_pow), np.asarray(nd_impl.reshape(np.shape(nd))) ** n_pow, 1e-11),
                    'scale-power', f'nondim(q**{n_pow}) != nondim(q)**{n_pow}', inp)
       # homomorphism of the factor itself
@@ -345,13 +387,7 @@ def run(ctx: common.Ctx):
   # The registry is created with autoconvert_offset_to_baseunit=True, so Quantity(25, degC) is an admissible
   # argument of nondimensionalize and degC an admissible unit of dimensionalize, which is then an *affine*
   # function of the value.  Model: AffUnit (conv, off, dim), nondimAff / dimensionalizeAff / convertAff.
-  # The model part is skipped (never the probes of the real code) while the Lean tree in use predates it.
-  with open(os.path.join(common.LEAN, 'Dino', 'Units.lean')) as fh:
-    has_affine_model = 'def nondimAff' in fh.read()
-  ctx.dist[f'affine: model ops {"present" if has_affine_model else "ABSENT in this Lean tree (correspondence of affine ops skipped)"}'] += 1
-  if not has_affine_model:
-    ctx.notes.append('the Lean tree in use has no affine-unit model (Dino/Units.lean lacks nondimAff): the affine '
-                     'operations were probed on the real code only')
+  # (a Lean tree without these operations answers `bad-op`, which is reported as a correspondence break)
   TEMP_DIM = dimvec(units.kelvin.dimensionality)
   aff = {}      # name -> (unit, conv, off): value_base = value * conv + off  (pint's OffsetConverter)
   for name in ['kelvin', 'degree_Celsius', 'degree_Fahrenheit', 'degree_Reaumur', 'degree_Rankine']:
@@ -468,16 +504,15 @@ def run(ctx: common.Ctx):
                               np.asarray(scale.dimensionalize(y, un2).m, dtype=float).ravel(),
                               ART * (ykel + abs(of2)) / abs(cv2)), 'affine-dimensionalize-unit-independence',
                        f'dimensionalize(y, {name}).to({name2}) != dimensionalize(y, {name2})', dict(i3, value=y_flat.tolist()))
-          if has_affine_model:
-            ut = aff_token(name)
-            add(f'units F anondim {st} {ut} {fvec(flat)}', 'Scale.nondimensionalize[affine]', inp,
-                (nd_flat, CRT * kscale.max() / Ts), 'avec')
-            add(f'units F adim {st} {ut} {fvec(y_flat)}', 'Scale.dimensionalize[affine]', i2,
-                (dm_flat, CRT * ykel.max() / abs(cv_)), 'avec')
-            name2 = str(rng.choice([n for n in AFF_NAMES if n != name]))
-            un2, cv2, of2 = aff[name2]
-            add(f'units F aconv {ut} {aff_token(name2)} {fvec(flat)}', 'Quantity.to[affine]', dict(inp, other_unit=name2),
-                (np.asarray(q.to(un2).m, dtype=float).ravel(), CRT * (kscale.max() + abs(of2)) / abs(cv2)), 'avec')
+          ut = aff_token(name)
+          add(f'units F anondim {st} {ut} {fvec(flat)}', 'Scale.nondimensionalize[affine]', inp,
+              (nd_flat, CRT * kscale.max() / Ts), 'avec')
+          add(f'units F adim {st} {ut} {fvec(y_flat)}', 'Scale.dimensionalize[affine]', i2,
+              (dm_flat, CRT * ykel.max() / abs(cv_)), 'avec')
+          name2 = str(rng.choice([n for n in AFF_NAMES if n != name]))
+          un2, cv2, of2 = aff[name2]
+          add(f'units F aconv {ut} {aff_token(name2)} {fvec(flat)}', 'Quantity.to[affine]', dict(inp, other_unit=name2),
+              (np.asarray(q.to(un2).m, dtype=float).ravel(), CRT * (kscale.max() + abs(of2)) / abs(cv2)), 'avec')
   # a scale without a temperature: both directions raise the documented ValueError on an affine unit as well
   no_temp = scales.Scale(scales.RADIUS, 1 / 2 / scales.OMEGA)
   for name in ['degree_Celsius', 'degree_Fahrenheit']:
@@ -487,10 +522,9 @@ def run(ctx: common.Ctx):
     r2 = guarded(lambda: scale_token([float(no_temp.dimensionalize(1.0, un).m)]), 'affine-exception', i4)
     ctx.expect(r1 == 'value-error' and r2 == 'value-error', 'scale-error-consistency',
                'a scale without a temperature does not raise ValueError on an offset unit', dict(i4, got=[r1, r2]))
-    if has_affine_model:
-      stn = scale_token(scale_vals(no_temp))
-      add(f'units F anondim {stn} {aff_token(name)} {fvec([25.0])}', 'Scale.nondimensionalize[affine, uncovered]', i4, r1, 'avec')
-      add(f'units F adim {stn} {aff_token(name)} {fvec([1.0])}', 'Scale.dimensionalize[affine, uncovered]', i4, r2, 'avec')
+    stn = scale_token(scale_vals(no_temp))
+    add(f'units F anondim {stn} {aff_token(name)} {fvec([25.0])}', 'Scale.nondimensionalize[affine, uncovered]', i4, r1, 'avec')
+    add(f'units F adim {stn} {aff_token(name)} {fvec([1.0])}', 'Scale.dimensionalize[affine, uncovered]', i4, r2, 'avec')
   # the same through PrimitiveEquationsSpecs.from_si()
   specs_si = pe.PrimitiveEquationsSpecs.from_si()
   for name in ['degree_Celsius', 'degree_Fahrenheit']:
@@ -559,6 +593,37 @@ def run(ctx: common.Ctx):
       toks.append(f'{fbits(b.m)}:{ivec(dimvec(q.dimensionality))}')
     add(f'units F mkscale {len(DIMS)} {";".join(toks)}', 'Scale.__init__', dict(scales=[str(q) for q in qs]), impl, 'str')
 
+  # the excluded points of nondim_div (`m2 != 0`) and nondim_pow (`m != 0` for a negative power) on the real code:
+  # recorded, not judged (the theorems say nothing there; the model over a field would return 0 through x/0 = 0,
+  # see nondim_div_excluded / nondim_pow_excluded)
+  def behaviour(fn):
+    try:
+      with np.errstate(all='ignore'):
+        r = np.asarray(fn(), dtype=float).ravel()
+      return 'returns ' + ('inf' if np.isinf(r).all() else 'nan' if np.isnan(r).all() else f'the finite value {r.tolist()}')
+    except Exception as e:  # pylint: disable=broad-except
+      return f'raises {type(e).__name__}'
+  S0 = scales.DEFAULT_SCALE
+  excl = []
+  for label, fn in [('nondimensionalize((3 m) / (0 s))', lambda z, th: S0.nondimensionalize((th * units.m) / (z * units.s))),
+                    ('nondimensionalize((0 m) ** -1)', lambda z, th: S0.nondimensionalize((z * units.m) ** -1)),
+                    ('nondimensionalize((0 m) ** -2)', lambda z, th: S0.nondimensionalize((z * units.m) ** -2))]:
+    for kind, z, th in [('python float', 0.0, 3.0), ('python int', 0, 3), ('numpy array', np.array([0.0]), np.array([3.0])),
+                        ('jax array', jnp.array([0.0]), jnp.array([3.0]))]:
+      b = behaviour(lambda: fn(z, th))
+      ctx.dist[f'excluded point {label} [{kind}]: {b}'] += 1
+      excl.append(f'{label} [{kind}] {b}')
+  ctx.notes.append('excluded points of nondim_div (m2 = 0) and nondim_pow (m = 0, n < 0) on the real code: ' + '; '.join(excl))
+  # outside the model: fractional exponents of dimensions (the model has integer exponents, `List Int`); the code
+  # accepts them — recorded, with the one identity that can be stated without the model
+  with ctx.impl('scale-exception', dict(unit='meter ** 0.5')):
+    L0 = float(S0['[length]'].m)
+    r_half = float(S0.nondimensionalize(2.0 * units.m ** 0.5))
+    ctx.expect(close(r_half, 2.0 / np.sqrt(L0), 1e-12), 'scale-fractional-exponent',
+               'nondimensionalize(2 m**0.5) != 2 / sqrt(length scale)', dict(got=r_half))
+    ctx.notes.append(f'outside the model: non-integer dimension exponents are accepted by the code (nondimensionalize(2 m**0.5) = '
+                     f'{r_half!r} = 2 / sqrt(length scale)); the Lean model has integer exponents only')
+
   # the excluded point of T18.1/T18.2 (`ScaleOK`: scales are non-zero) on the real code: not validated there
   try:
     z = scales.Scale(0.0 * units.meter)
@@ -567,9 +632,12 @@ def run(ctx: common.Ctx):
     ctx.notes.append(f'excluded point: Scale(0 m) is accepted by the code; nondimensionalize(1 m) = {r!r}')
   except Exception as e:  # pylint: disable=broad-except
     ctx.notes.append(f'excluded point: Scale(0 m).nondimensionalize(1 m) raises {type(e).__name__}: {e}')
+  ctx.notes.append('excluded point: Scale(0 m)._scaling_factor of 1/m (factor_zsmul / factor_neg with a negative exponent at a zero '
+                   'scale) ' + behaviour(lambda: scales.Scale(0.0 * units.meter)._scaling_factor((1 / units.meter).dimensionality).m))
 
   # ------------------------------------------------------------------ timedelta64
   specs0 = pe.PrimitiveEquationsSpecs.from_si()
+  T0s = float(specs0.scale['[time]'].m)
 
   def random_time_specs():
     if rng.random() < 0.3:
@@ -674,6 +742,18 @@ def run(ctx: common.Ctx):
                    and Fraction(float(v27)) == Fraction(4539835950260289, 1152921504606846976)
                    and Fraction(d27) == Fraction(7599824371187711, 281474976710656) and int(d27) == 26,
                    f'T={float(specs0.scale["[time]"].m)!r} v={float(v27)!r} dt={d27!r}')
+  # outside the domain: a jax array given to dimensionalize_timedelta64 (the array path is `isinstance(dt, np.ndarray)`,
+  # so a jax array of rank >= 1 falls into the scalar path and `float(dt)` raises) — recorded, not judged
+  td_jax = []
+  for label, mk in [('jax array of rank 1', lambda: jnp.asarray([27.0, 28.0]) / T0s), ('jax array of rank 0', lambda: jnp.asarray(27.0 / T0s)),
+                    ('numpy array of rank 0', lambda: np.asarray(27.0 / T0s))]:
+    try:
+      td_jax.append(f'{label}: returns {specs0.dimensionalize_timedelta64(mk())!r}')
+    except Exception as e:  # pylint: disable=broad-except
+      td_jax.append(f'{label}: raises {type(e).__name__}')
+    ctx.dist[f'excluded: dimensionalize_timedelta64 on a {td_jax[-1]}'] += 1
+  ctx.notes.append('excluded domain: dimensionalize_timedelta64 takes Python / numpy scalars (scalar path) and numpy arrays (array '
+                   'path); ' + '; '.join(td_jax))
   # arbitrary (not whole-second) values: documented rounding-down behaviour, both paths, vs model
   for specs in [specs0, random_time_specs(), random_time_specs()]:
     T = float(specs.scale['[time]'].m)
@@ -755,6 +835,26 @@ def run(ctx: common.Ctx):
       if upm is not None:
         add(f'units F dtrt {st} {ivec(TIME_DIM)} {upm} {refc} {ivec(cnt)}', 'datetime64 round trip',
             dict(inp, stamps=[str(x) for x in stamps[j[:10]]]), back[j].astype(np.int64).tolist(), 'ivec')
+      # stamps that are NOT a whole number of minutes from the reference (outside `datetime_roundtrip`, whose stamps are
+      # refc + m * upm): nondim_time_to_datetime64 rounds the elapsed time to whole minutes FROM THE REFERENCE, so such a
+      # stamp comes back as the nearest reference + k minutes; the model (`dtRoundtrip`, bit-exact) is compared on all
+      # of them, the probe skips the exact ties (half a minute: the direction depends on the rounding of the chain)
+      if unit == 's':
+        offs = np.concatenate([[30, 60, 90, 120, 150, -30, 29, 31, 0, 59, 61],
+                               rng.integers(-2 * 10 ** 9, 2 * 10 ** 9, ctx.n(400, 4000))]).astype(np.int64)
+        st2 = ref + offs.astype('timedelta64[s]')
+        nd2 = xu.datetime64_to_nondim_time(st2, specs, ref)
+        back2 = xu.nondim_time_to_datetime64(nd2, specs, ref)
+        got = ((back2 - ref) / np.timedelta64(1, 's')).astype(np.int64)
+        nearest = ((2 * offs + 60) // 120) * 60                 # nearest multiple of 60 (ties, excluded below, go up)
+        notie = offs % 60 != 30
+        ctx.dist['datetime:off-minute stamps'] += int((offs % 60 != 0).sum())
+        ctx.evaluations += int(offs.size)
+        ctx.expect((got[notie] == nearest[notie]).all(), 'datetime-off-minute',
+                   'a stamp that is not a whole number of minutes from the reference does not come back as the nearest '
+                   'reference + k minutes', dict(inp, offsets_s=offs[notie][got[notie] != nearest[notie]][:5].tolist()))
+        add(f'units F dtrt {st} {ivec(TIME_DIM)} 60 {refc} {ivec(st2.astype(np.int64))}', 'datetime64 round trip [off-minute stamps]',
+            dict(inp, offsets_s=offs[:12].tolist()), back2.astype(np.int64).tolist(), 'ivec')
       # scalar call and the time-axis helper
       k0, k1 = int(rng.integers(0, stamps.size)), int(rng.integers(0, stamps.size))
       ctx.expect(float(xu.datetime64_to_nondim_time(stamps[k0], specs, ref)) == float(nd[k0]), 'datetime-scalar',
@@ -801,10 +901,20 @@ def run(ctx: common.Ctx):
           hyp2_n += 1
   ctx.obligation('hypothesis: the datetime conversions are the seven roundings of T18.4, each within 2^-53',
                  'hypothesis', hyp2_ok, f'{hyp2_n} operations')
+  # the negative witness `datetime_roundtrip_off_minute` on the real code: reference 00:00:30 (count 30 in seconds, default
+  # scale), stamps 00:01:00, 00:02:00, 00:01:30 come back as 00:00:30, 00:02:30, 00:01:30
+  with ctx.impl('datetime-exception', dict(reference='1970-01-01T00:00:30')):
+    ref30 = np.datetime64('1970-01-01T00:00:30', 's')
+    st30 = np.array([60, 120, 90], dtype=np.int64).astype('datetime64[s]')
+    b30 = xu.nondim_time_to_datetime64(xu.datetime64_to_nondim_time(st30, specs0, ref30), specs0, ref30).astype(np.int64).tolist()
+    ctx.obligation('witness: datetime_roundtrip_off_minute (reference at 00:00:30) is what the implementation returns', 'witness',
+                   b30 == [30, 150, 90], f'counts 60, 120, 90 -> {b30}')
 
   # ------------------------------------------------------------------ orbital time
   coords = coordinate_systems.CoordinateSystem(spherical_harmonic.Grid.T21(),
                                                sigma_coordinates.SigmaCoordinates.equidistant(2))
+  U = 2.0 ** -53
+  orb_excess = []
   norb = ctx.n(6, 30)
   for oi in range(norb):
     specs = specs0 if oi == 0 else random_time_specs()
@@ -832,29 +942,41 @@ def run(ctx: common.Ctx):
       ctx.evaluations += len(ts)
       ctx.nontrivial.add(f'orb:{T}:{refdt}')
       ctx.dist['orbital:times'] += len(ts)
+      # sample sent to the models: the special times, random times, and whole days (where the unreduced phase is next to
+      # a multiple of 2pi and the rounding of q*2pi decides on which side of the period the result lands)
+      sel = np.concatenate([np.arange(300), np.arange(len(ts) - 300, len(ts))])
       for nm, ph, r0, rate in (('orbital', ph_o, ref_o, rate_o), ('synodic', ph_s, ref_s, rate_s)):
         i_ = dict(inp, which=nm)
-        # over the reals the phase is in [0, 2pi) (T18.5); in floating point the product q*2pi is rounded, so
-        # the result can leave the interval by one rounding error of the *unreduced* phase x (<= eps*|x|), and
-        # a tiny negative x is reduced to fl(2pi): the check is [-tol, 2pi + tol], tol = 2 eps (|x| + 2pi)
+        # Over the reals the phase is in [0, 2pi) (T18.5).  In double arithmetic, operation by operation, it is
+        # x - fl(q*2pi) with q the exact floor of x / fl(2pi) (x the unreduced double): theorem `reduceFl_mem` gives
+        # [-e, 2pi + e), e = u ((1+u)(|x| + 2pi) + 2pi), u = 2^-53.  IEEE rounding is monotone and q*2pi <= x, so
+        # fl(q*2pi) <= x and the lower end is exactly 0 (a tiny negative x is reduced to fl(2pi)); the upper end is
+        # reached: fl(q*2pi) can be below q*2pi by half an ulp of x.  Real tolerance of this check: phase in
+        # [0, 2pi + e] with that e (x recomputed by numpy, hence the factor 1 + 4u).
         xx = r0 + rate * ts
-        tolr = 2 * np.finfo(float).eps * (np.abs(xx) + TWO_PI)
-        rng_ok = (ph >= -tolr) & (ph <= TWO_PI + tolr)
-        ctx.expect(rng_ok.all(), 'orbital-range', f'{nm} phase outside [0, 2pi] '
+        tolr = U * ((1 + U) * (np.abs(xx) * (1 + 4 * U) + TWO_PI) + TWO_PI)
+        rng_ok = (ph >= 0) & (ph <= TWO_PI + tolr)
+        ctx.expect(rng_ok.all(), 'orbital-range-widened', f'{nm} phase outside [0, 2pi + 2^-53 (|x| + 2*2pi)] '
                    f'(first: t={ts[~rng_ok][0] if (~rng_ok).any() else None}, phase={ph[~rng_ok][0] if (~rng_ok).any() else None})', i_)
         at_end = int((ph == TWO_PI).sum())
         if at_end:
-          ctx.dist[f'orbital:{nm}-phase==fl(2pi) (tiny negative argument, closed end accepted)'] += at_end
-        outside = int(((ph < 0) | (ph > TWO_PI)).sum())
-        if outside:
-          ctx.dist[f'orbital:{nm}-phase outside [0,2pi] by <= 2 eps |x| (rounding of q*2pi)'] += outside
+          ctx.dist[f'orbital:{nm}-phase==fl(2pi) (tiny negative argument: not in [0, 2pi))'] += at_end
+        outside = ph > TWO_PI
+        if outside.any():
+          ctx.dist[f'orbital:{nm}-phase > fl(2pi) by <= 2^-53 |x| (rounding of q*2pi: not in [0, 2pi))'] += int(outside.sum())
+          orb_excess.append(float(((ph - TWO_PI) / (U * np.abs(xx) + 1e-300))[outside].max()))
         x = r0 + rate * ts
         tol = 64 * np.finfo(float).eps * (np.abs(x) + TWO_PI)
         cd = circ_dist(ph, x)
         ctx.expect((cd <= tol).all(), 'orbital-congruence',
                    f'{nm} phase is not congruent to ref + rate*t (first: t={ts[cd > tol][0] if (cd > tol).any() else None})', i_)
-        add(f'units F orb {fbits(TWO_PI)} {fbits(r0)} {fbits(rate)} {fvec(ts[:600])}',
-            'SolarRadiation.time_to_orbital_time', dict(i_, times=ts[:12].tolist()), (ph[:600], tolr[:600] + 1e-12), 'phase')
+        add(f'units F orb {fbits(TWO_PI)} {fbits(r0)} {fbits(rate)} {fvec(ts[sel])}',
+            'SolarRadiation.time_to_orbital_time', dict(i_, times=ts[:12].tolist()),
+            (ph[sel], 2 * np.finfo(float).eps * (np.abs(xx[sel]) + TWO_PI) + 1e-12), 'phase')
+        # the model in double arithmetic (exact floor, every operation rounded by fl53) against the eager implementation,
+        # bit for bit
+        add(f'units F orbfl {fbits(TWO_PI)} {fbits(r0)} {fbits(rate)} {fvec(ts[sel])}',
+            'SolarRadiation.time_to_orbital_time[double arithmetic, eager]', dict(i_, times=ts[sel][:12].tolist()), ph[sel], 'bits')
       # elapsed time: one year later the orbital phase is back, one day later the synodic phase is back
       ot_y = jax.vmap(sr.time_to_orbital_time)(jnp.asarray(ts + year_nd))
       ot_d = jax.vmap(sr.time_to_orbital_time)(jnp.asarray(ts + day_nd))
@@ -870,6 +992,79 @@ def run(ctx: common.Ctx):
       o1 = sr.time_to_orbital_time(float(ts[k]))
       ctx.expect(float(o1.orbital_phase) == float(ph_o[k]) and float(o1.synodic_phase) == float(ph_s[k]),
                  'orbital-scalar', 'scalar and vmapped time_to_orbital_time differ', dict(inp, t=float(ts[k])))
+
+  if orb_excess:
+    ctx.notes.append(f'orbital phases above fl(2pi) on the wide domain: worst excess {max(orb_excess):.3f} * 2^-53 |x| '
+                     '(bound of reduceFl_mem: 1 + small)')
+
+  # ---- the literal range [0, 2pi) of the property statement on REALISTIC model times: DEFAULT_SCALE, years of simulation
+  # counted in whole days / hours / 6-minute steps from the reference, float64 and float32, eager and under jit.
+  # Reported under the key `orbital-range` when that key is a recorded known finding, as a note otherwise.
+  real_inp = dict(scale='DEFAULT_SCALE', reference='1979-01-01T00:00', times='k * day (0..100 y), k * hour (0..10 y), k * 6 min (0..1 y)')
+  with ctx.impl('orbital-exception', real_inp):
+    day0 = 86400 / T0s
+    sr0 = radiation.SolarRadiation(coords, specs0, datetime.datetime(1979, 1, 1))
+    grids = [('k*day, 0..100 y', np.arange(0, 36525) * day0), ('k*hour, 0..10 y', np.arange(0, 3653 * 24) * (day0 / 24)),
+             ('k*6min, 0..1 y', np.arange(0, 366 * 240) * (day0 / 240))]
+    rows, n_lit64, worst64, first64 = [], 0, 0.0, None
+    for dt_ in (np.float64, np.float32):
+      for mode, fn in (('eager', jax.vmap(sr0.time_to_orbital_time)), ('jit', jax.jit(jax.vmap(sr0.time_to_orbital_time)))):
+        for label, tg in grids:
+          ot = fn(jnp.asarray(tg.astype(dt_)))
+          for nm, ph in (('orbital', np.asarray(ot.orbital_phase)), ('synodic', np.asarray(ot.synodic_phase))):
+            if ph.dtype != dt_:
+              raise common.Infra(f'time_to_orbital_time returned {ph.dtype} for {dt_.__name__} times')
+            ph = ph.astype(float)
+            out = (ph < 0) | (ph >= TWO_PI)
+            ctx.evaluations += len(tg)
+            ctx.dist[f'orbital-realistic:{dt_.__name__}:{mode}:{nm}:{label}: outside [0,2pi)'] += int(out.sum())
+            if out.any():
+              exc = float(np.maximum(-ph, ph - TWO_PI).max())
+              k0 = int(np.nonzero(out)[0][0])
+              rows.append(f'{dt_.__name__} {mode} {nm} {label}: {int(out.sum())} of {len(tg)} (negative: {int((ph < 0).sum())}), worst excess '
+                          f'{exc:.3e} rad, first at t = {tg[k0]!r} ({tg[k0] / day0:.4f} days)')
+              if dt_ is np.float64:
+                n_lit64 += int(out.sum())
+                worst64 = max(worst64, exc)
+                first64 = first64 or (nm, mode, float(tg[k0]), float(ph[k0]))
+    # the closed end on realistic inputs: midnight of the reference day when the reference is not at midnight (the
+    # unreduced synodic phase is 0 up to rounding; when it comes out as a tiny negative number the phase is fl(2pi))
+    for slabel, sp in (('DEFAULT_SCALE', specs0),
+                       ('time scale 1 s', dataclasses.replace(specs0, scale=scales.Scale(scales.RADIUS, 1 * units.second, 1 * units.kilogram, 1 * units.degK))),
+                       ('time scale 1 h', dataclasses.replace(specs0, scale=scales.Scale(scales.RADIUS, 1 * units.hour, 1 * units.kilogram, 1 * units.degK)))):
+      for hh, mm in ((13, 27), (6, 0), (18, 45), (1, 1), (23, 59)):
+        sr1 = radiation.SolarRadiation(coords, sp, datetime.datetime(2000, 6, 15, hh, mm))
+        t_mid = float(sr1.datetime_to_time(datetime.datetime(2000, 6, 15)))
+        for mode, fn in (('eager', jax.vmap(sr1.time_to_orbital_time)), ('jit', jax.jit(jax.vmap(sr1.time_to_orbital_time)))):
+          p_mid = float(np.asarray(fn(jnp.asarray([t_mid])).synodic_phase)[0])
+          ctx.evaluations += 1
+          ctx.dist[f'orbital-realistic:float64:{mode}: midnight of the reference day: synodic phase '
+                   f'{"== fl(2pi)" if p_mid == TWO_PI else "in [0,2pi)" if 0 <= p_mid < TWO_PI else "outside [0,2pi]"}'] += 1
+          if not 0 <= p_mid < TWO_PI:
+            n_lit64 += 1
+            rows.append(f'float64 {mode} synodic, {slabel}, reference 2000-06-15T{hh:02d}:{mm:02d}, t = datetime_to_time(2000-06-15T00:00) = '
+                        f'{t_mid!r}: phase {p_mid!r}{" == fl(2pi)" if p_mid == TWO_PI else ""}')
+    # the Lean witness `timeToOrbitalFl_fl53_exceeds_period` is this implementation on these doubles
+    t23 = float(sr0.datetime_to_time(datetime.datetime(1979, 1, 24)))
+    p23 = float(sr0.time_to_orbital_time(t23).synodic_phase)
+    ctx.obligation('witness: Lean constants twoPi64, rateS, t23 and the phase of timeToOrbitalFl_fl53_exceeds_period are the doubles '
+                   'of the (eager) implementation', 'witness',
+                   Fraction(TWO_PI) == Fraction(884279719003555, 140737488355328)
+                   and Fraction(float(sr0.orbital_rate.synodic_phase)) == Fraction(8982748410267517, 18014398509481984)
+                   and float(sr0.reference_orbital_time.synodic_phase) == 0.0
+                   and Fraction(t23) == Fraction(5098448576952473, 17592186044416)
+                   and Fraction(p23) == Fraction(221069929750889, 35184372088832) and p23 > TWO_PI,
+                   f'2pi={TWO_PI!r} rate={float(sr0.orbital_rate.synodic_phase)!r} t={t23!r} phase={p23!r} phase-2pi={p23 - TWO_PI!r}')
+    if n_lit64:
+      msg = (f'float64 orbital phases outside the half-open interval [0, 2pi) of the property statement on realistic model times '
+             f'(DEFAULT_SCALE): {n_lit64} cases, worst excess {worst64:.3e} rad (never negative; bounded by 2^-53 (|x| + 2*2pi), '
+             f'theorem reduceFl_mem), first: {first64}; ' + ' | '.join(rows))
+      if any(k['key'] == 'orbital-range' for k in ctx.known):
+        ctx.fail('orbital-range', msg, real_inp)
+      else:
+        ctx.notes.append('orbital-range (measured, not a recorded known finding): ' + msg)
+    elif rows:
+      ctx.notes.append('orbital-range: float64 phases stay in [0, 2pi) on the realistic times; float32: ' + ' | '.join(rows))
 
   # calendar part
   ncal = ctx.n(400, 5000)
@@ -931,9 +1126,11 @@ def run(ctx: common.Ctx):
     elif kind == 'scalar':
       ctx.corr_float(op, inp, [impl], [unfbits(o)], atol=0.0)
     elif kind == 'vec':
-      ctx.corr_float(op, inp, impl, unfvec(o), atol=0.0)
+      corr_elementwise(ctx, op, inp, impl, unfvec(o))
     elif kind == 'pair':
-      ctx.corr_float(op, inp, impl, [unfbits(t) for t in o.split(' ')], atol=0.0)
+      corr_elementwise(ctx, op, inp, impl, [unfbits(t) for t in o.split(' ')])
+    elif kind == 'bits':
+      ctx.corr_exact(op, inp, [float(x) for x in impl], unfvec(o))
     elif kind == 'avec':
       # affine operation: the result can be a small difference of Kelvin-sized numbers, so the tolerance is
       # absolute, relative to the Kelvin magnitude of the operation (computed where the line was built)
@@ -979,22 +1176,32 @@ def run(ctx: common.Ctx):
   q2 = ctx.model(['units Q td -,7539163657268239/1099511627776 0,1 27,28,-5,0'])[0]
   ctx.corr_exact('model-rat-timedelta', dict(line='td'), q2.split(' ')[2:], ['27,28,-5,0'] * 3)
 
-  if has_affine_model:
-    # the witnesses of the Lean file on the executable model in exact arithmetic: 25 degC = 298.15 K = 77 degF under a
-    # temperature scale of 32 K; the linearised variant (seeded change C18-1) returns -28759549/12800 degC
-    sq, cq_, fq_ = '-,3,-,2,-,-,32', '1:5463/20:0,0,0,0,0,0,1', '5/9:45967/180:0,0,0,0,0,0,1'
-    qa = ctx.model([f'units Q anondim {sq} {cq_} 25,0', f'units Q anondim {sq} {fq_} 77', f'units Q adim {sq} {cq_} 5963/640',
-                    f'units Q adim {sq} {fq_} 5963/640', f'units Q aconv {cq_} {fq_} 25,-40', f'units Q alin {sq} {cq_} 5963/640'])
-    ctx.corr_exact('model-rat-affine', dict(line='anondim/adim/aconv/alin'), qa,
-                   ['5963/640,5463/640', '5963/640', '25', '77', '77,-40', '-28759549/12800'])
+  # the witnesses of the Lean file on the executable model in exact arithmetic: 25 degC = 298.15 K = 77 degF under a
+  # temperature scale of 32 K; the linearised variant (seeded change C18-1) returns -28759549/12800 degC
+  sq, cq_, fq_ = '-,3,-,2,-,-,32', '1:5463/20:0,0,0,0,0,0,1', '5/9:45967/180:0,0,0,0,0,0,1'
+  qa = ctx.model([f'units Q anondim {sq} {cq_} 25,0', f'units Q anondim {sq} {fq_} 77', f'units Q adim {sq} {cq_} 5963/640',
+                  f'units Q adim {sq} {fq_} 5963/640', f'units Q aconv {cq_} {fq_} 25,-40', f'units Q alin {sq} {cq_} 5963/640'])
+  ctx.corr_exact('model-rat-affine', dict(line='anondim/adim/aconv/alin'), qa,
+                 ['5963/640,5463/640', '5963/640', '25', '77', '77,-40', '-28759549/12800'])
+  # the orbital reduction of the model in exact arithmetic stays in [0, 2pi) on the double-arithmetic witness
+  q4 = ctx.model(['units Q orbfl 884279719003555/140737488355328 0 8982748410267517/18014398509481984 '
+                  '5098448576952473/17592186044416'])[0]
+  ctx.corr_exact('model-rat-orbital', dict(line='orbfl at fl = id'), 0 <= Fraction(q4) < Fraction(884279719003555, 140737488355328), True)
   if not ctx.quick:
     ctx.leanchecker(['DinoProofs.Properties.C18'])
   return ctx.finish(RULE, 'theorems are about the Lean model Dino.Units; pint is external (its unit table is an input); '
                     'the inverse / unit-independence theorems need ScaleOK (all base scales non-zero, not checked by the code) '
                     'and a non-zero conversion factor, for multiplicative and for affine (degC, degF) units; '
                     'T18.3/T18.4 hold under the relative-error model of double arithmetic stated as a hypothesis (no overflow, '
-                    'no underflow); the orbital phase bound [0, 2pi) is proved over the reals only: in floating point a tiny '
-                    'negative phase argument is reduced to fl(2pi) and the phase can leave [0, 2pi] by 2 eps (|x| + 2pi), so '
-                    'the range check on the implementation is that widened closed interval; the correspondence is bit-exact '
-                    'for the timedelta operations only, integer results are compared exactly, every other float result with '
-                    'relative tolerance 1e-9 (affine units: 1e-9 of the Kelvin magnitude)')
+                    'no underflow); the orbital phase range [0, 2pi) is proved OVER THE REALS ONLY (any ordered field with a floor): in '
+                    'double arithmetic, operation by operation, the proved range is [-e, 2pi + e), e = 2^-53 ((1 + 2^-53)(|x| + 2pi) + 2pi) '
+                    'for the unreduced phase x (reduceFl_mem), with witnesses on the real doubles that the half-open interval is not '
+                    'kept (phase = fl(2pi) + 8 ulp at day 23 of the default configuration, phase = fl(2pi) for a tiny negative x); '
+                    'the range check on the implementation is [0, 2pi + e] (tolerance 2^-53 (|x| + 2*2pi), about 1e-9 for |x| = 7e6; '
+                    'measured excess up to about 0.4 * 2^-53 |x|), the literal range is measured on realistic times and reported '
+                    'as the finding `orbital-range`; pint is external and its conversion (Quantity.to, to_base_units) is a TESTED '
+                    'HYPOTHESIS: the unit-independence theorems take "same quantity" as m * conv = m\' * conv\' (affine: equal '
+                    'base values) and are tied to pint only by the table comparison and the probes; the correspondence is bit-exact '
+                    'for the timedelta operations, the datetime round trip and the orbital reduction in double arithmetic (eager), '
+                    'integer results are compared exactly, every other float result entry by entry with relative tolerance 1e-9 '
+                    '(affine units: 1e-9 of the Kelvin magnitude)')
